@@ -11,16 +11,79 @@ TL_TRAIT = "mina_core::timeline::Timeline"
 SA_TRAIT = "mina_core::animator::StateAnimator"
 
 
+MIRRORS = {}     # {(adt path, time field): [fields proved to mirror it as f32 seconds]}
+
+
 def roles_of(facts, adt_path=ANIM_ADT):
     adt = facts.adt(adt_path)
-    return field_roles(adt, {
+    spec = {
         "timelines": lambda t: t == "TimelineMap",
         "current_state": lambda t: t == "State",
         "current_values": lambda t: "Target" in t and "Option" not in t,
         "pause": lambda t: t.startswith("core::option::Option<(State") and "Target" not in t,
         # the accumulated time in the current state: whatever representation it has (C06 judges the representation)
         "time": lambda t: t in ("core::time::Duration", "f32", "f64", "u64", "u128"),
-    })
+    }
+    try:
+        return field_roles(adt, spec)
+    except AnchorLost:
+        # one Duration clock plus f32 fields that provably *mirror* it (every function that writes either stores
+        # as_secs_f32 of the value it stores in the clock): the mirror is a cache of the clock, not a second clock
+        fields = adt["variants"][0]["fields"]
+        clocks = [f["name"] for f in fields if f["ty"] == "core::time::Duration"]
+        floats = [f["name"] for f in fields if f["ty"] == "f32"]
+        others = [f["name"] for f in fields if spec["time"](f["ty"]) and f["name"] not in clocks + floats]
+        if len(clocks) != 1 or not floats or others or not all(prove_mirror(facts, adt_path, clocks[0], m) for m in floats):
+            raise
+        spec["time"] = lambda t: t == "core::time::Duration"
+        R = field_roles(adt, spec)
+        for i, m in enumerate(floats):
+            R["time-mirror-%d" % i] = m
+        MIRRORS[(adt_path, clocks[0])] = list(floats)
+        return R
+
+
+def prove_mirror(facts, adt_path, T, M):
+    """True when on every returning path of every function that may write field T (a Duration) or field M (an f32) of
+    the struct, the final M is `Duration::as_secs_f32(&final T)` (or both are untouched / both zero).  Fail-closed: a
+    writer that is not a method of the type with the receiver first, a borrow-mut, or an unreadable value gives False."""
+    from rulelib import field_writers
+    fw = field_writers(facts, adt_path)
+    writers = {}
+    for f in (T, M):
+        for path, kinds in fw.get(f, {}).items():
+            writers.setdefault(path, set()).update(kinds)
+    if not writers:
+        return False
+    bodies = {b["path"]: b for b in facts.find(impl_self_adt=adt_path) if not b.get("impl_exp")}
+    self_cell = ("M", ("param", 1))
+    init = lambda f: ("field", ("deref", ("param", 1)), f)
+    for path, kinds in writers.items():
+        b = bodies.get(path)
+        if b is None or "borrow-mut" in kinds:
+            return False
+        eng = engine(facts)
+        for p in eng.run(b):
+            if p.outcome != "return":
+                continue
+            if "ctor" in kinds:
+                if p.ret[0] != "agg" or p.ret[2] != adt_path:
+                    return False
+                vals = dict(p.ret[4])
+                t, m = vals.get(T), vals.get(M)
+            else:
+                t = eng.read_loc(p, self_cell, (("field", T),))
+                m = eng.read_loc(p, self_cell, (("field", M),))
+            if t is None or m is None:
+                return False
+            if t == init(T) and m == init(M):
+                continue
+            if is_zero_time(t) and is_zero_time(m):
+                continue
+            if m == ("call", "core::time::Duration::as_secs_f32", (("&", t),)):
+                continue
+            return False
+    return True
 
 
 def is_zero_time(t):
@@ -36,7 +99,13 @@ def is_zero_time(t):
 
 def as_seconds(t):
     """accepted readings of the accumulated time as f32 seconds: Duration::as_secs_f32(&t), t itself, t as f32"""
-    return (("call", "core::time::Duration::as_secs_f32", (("&", t),)), t, ("cast", "FloatToFloat", t, "f32"))
+    out = (("call", "core::time::Duration::as_secs_f32", (("&", t),)), t, ("cast", "FloatToFloat", t, "f32"))
+    # a proved mirror field of the clock, read from the same object, is the clock in seconds
+    if t[0] == "field":
+        for (adt, clock), ms in MIRRORS.items():
+            if t[2] == clock:
+                out += tuple(("field", t[1], m) for m in ms)
+    return out
 
 
 class Row:
